@@ -88,3 +88,18 @@ CHECKS["C18"] = {
     ),
     "note": "Concrete rule sets/events as values are not enumerated; the decided clauses are structural." + TRUSTED,
 }
+
+CHECKS["C11"] = {
+    "technique": "local alias/mutation analysis + CFG call counter + schema pass-through",
+    "text": (
+        "Static rules for CopyStreamResult, StreamTagger, TimestampingStreamResult, StreamFailFast and StreamToQueue "
+        "(and, for the shared rules, every StreamResult subclass in real.py): a may-alias analysis shows no "
+        "status/startTestRun/stopTestRun body mutates an object received from the caller; lazy iterators that perform "
+        "forwarding are materialised; the copying base applies the same-named method to every target once and "
+        "subclasses reach it through super() exactly once on every path (typestate counter); every one of the ten "
+        "status fields reaches the forwarding call unchanged except the owned field, which changes only under the "
+        "documented guard. Aliasing between branches needs two cooperating sinks to observe at run time; statically it "
+        "is a property of one function body."
+    ),
+    "note": "Wall-clock values and what sinks do with shared immutable values are not decided." + TRUSTED,
+}
